@@ -772,6 +772,18 @@ pub fn evaluate_single(cfg: &RunCfg, rec: &RunRecord) -> (Vec<Finding>, Facts) {
                     l.zst_drops
                 ),
             ));
+            if (l.zst_drops as usize) < len && cfg.panic.is_none() {
+                // a zero-sized element owns no heap block the allocation ledger could see; what its
+                // destructor would have released is leaked all the same
+                out.push(f(
+                    "C15",
+                    "never-dropped",
+                    format!(
+                        "{} of {len} zero-sized elements were never destroyed: whatever their destructor releases is leaked",
+                        len - l.zst_drops as usize
+                    ),
+                ));
+            }
         }
     } else if kind.consuming() {
         let p = if cfg.panic.is_some() { "C18" } else { "C08" };
